@@ -109,6 +109,8 @@ pub enum XS {
     CustAdd(V, V),
     /// Postgres-style reordering template: `$2 - $1` (on ?-backends: `? - ?` with the values swapped by the caller)
     CustReorder(V, V),
+    /// template with a quoted literal that contains an escaped quote and a placeholder mark, then a real placeholder
+    CustQuoted(V),
     Scalar(Box<SelSpec>),
     Exists(Box<SelSpec>),
     InSub(Box<XS>, Box<SelSpec>),
@@ -192,6 +194,14 @@ impl XS {
                     Expr::cust_with_values("? - ?", [y.value(), x.value()])
                 }
             }
+            XS::CustQuoted(x) => {
+                let t = match d {
+                    Dialect::Mysql => "CONCAT('q\\'?', ?)",
+                    Dialect::Postgres => "E'q\\'$1' || $1",
+                    Dialect::Sqlite => "'q''?' || ?",
+                };
+                Expr::cust_with_values(t, [x.value()])
+            }
             XS::Scalar(s) => SimpleExpr::SubQuery(None, Box::new(s.build(d).into_sub_query_statement())),
             XS::Exists(s) => Expr::exists(s.build(d)),
             XS::InSub(x, s) => x.build(d).in_subquery(s.build(d)),
@@ -233,6 +243,7 @@ impl XS {
             XS::CountStar => "COUNT(*)".into(),
             XS::CustAdd(x, y) => format!("({} + {})", x.sql(), y.sql()),
             XS::CustReorder(x, y) => format!("({} - {})", y.sql(), x.sql()),
+            XS::CustQuoted(x) => format!("('q''?' || {})", x.sql()),
             XS::Scalar(s) => format!("({})", s.ref_sql()),
             XS::Exists(s) => format!("(EXISTS ({}))", s.ref_sql()),
             XS::InSub(x, s) => format!("({} IN ({}))", x.ref_sql(), s.ref_sql()),
@@ -285,6 +296,7 @@ impl XS {
                 out.push(y.clone());
                 out.push(x.clone());
             }
+            XS::CustQuoted(x) => out.push(x.clone()),
             XS::Scalar(s) | XS::Exists(s) => s.tags(d, out),
             XS::InSub(x, s) => {
                 x.tags(d, out);
@@ -840,6 +852,7 @@ pub fn pool_items() -> Vec<XS> {
         XS::Func(FuncK::Max, vec![XS::Col("b")]),
         XS::CountStar,
         XS::CustAdd(iv(121), iv(122)),
+        XS::CustQuoted(iv(181)),
         XS::Func(FuncK::IfNull, vec![XS::Col("b"), XS::Val(iv(131))]),
         XS::Bin(BOp::Mul, b(XS::Bin(BOp::Sub, b(XS::Col("a")), b(XS::Val(iv(141))))), b(XS::Val(iv(2)))),
         XS::Val(V::Str("it's".into())),
@@ -857,6 +870,7 @@ pub fn pool_bool() -> Vec<XS> {
         XS::In(b(XS::Col("b")), vec![iv(100), iv(5500), iv(1013)], false),
         XS::Between(b(XS::Col("a")), iv(1021), iv(2621)),
         XS::Like(b(XS::Col("s")), "x%".into(), None),
+        XS::Like(b(XS::Col("s")), "x\\%".into(), Some('\\')),
         XS::IsNull(b(XS::Col("b")), true),
         XS::Not(b(XS::Bin(BOp::Eq, b(XS::Col("a")), b(XS::Val(iv(1500)))))),
         XS::EmptyIn(b(XS::Col("a")), true),
@@ -886,6 +900,7 @@ pub fn retag(x: &XS, delta: i64) -> XS {
         XS::Func(k, args) => XS::Func(*k, args.iter().map(|x| retag(x, delta)).collect()),
         XS::CustAdd(x, y) => XS::CustAdd(tv(x), tv(y)),
         XS::CustReorder(x, y) => XS::CustReorder(tv(x), tv(y)),
+        XS::CustQuoted(x) => XS::CustQuoted(tv(x)),
         other => other.clone(),
     }
 }
